@@ -315,6 +315,18 @@ type outbound struct {
 	queue chan chan<- error
 }
 
+// Submitted returns whether the packet with the sequence number was send. The
+// queue gets its entry before the write, and the entry may receive an error
+// after the write. Acknowledgement must not pass a submission in progress.
+func (out *outbound) submitted(seqNo uint) bool {
+	seq, ok := <-out.seqSem // lock awaits pending submission
+	if !ok {
+		return false
+	}
+	out.seqSem <- seq // unlock
+	return seqNo < seq.submitN
+}
+
 // Sequence tracks outbound submission.
 type seq struct {
 	// AcceptN has the sequence number for the next submission. Counting
